@@ -21,9 +21,12 @@ LEVEL_TEXT = ("Theorems (Lean 4, Ccp.Props.C06, for all states and payloads of t
               "Python's list operations with the index normalisation stated (pop out of range = IndexError, state unchanged); list-level "
               "insert_before/after give the old list with one copy of the payload next to every line whose regex-oracle row entry is true "
               "(explicit flatMap form; length = old + matches; old list is a sublist; everything that is not a copy of the payload untouched; "
-              "no match = no change); object-level insert_before/after add exactly one line at i / i+1 (take ++ [txt] ++ drop); delete removes "
+              "no match = no change); object-level insert_before/after find their object by identity (posOf: the position p of the list element "
+              "carrying that committed line number — also on states with uncommitted changes; every step keeps these identities pairwise "
+              "distinct, so p is unique; p = the line number itself on a committed state) and add exactly one line at p / p+1 "
+              "(take ++ [txt] ++ drop); delete (committed states only) removes "
               "exactly the positions {i} ∪ all_children(i) (under C03's Forest: i and the lines having i on their ancestor chain; length shrinks "
-              "by 1 + |all_children|); replace_text / re_sub change position i only (List.set), an unchanged re_sub is a no-op; a successful "
+              "by 1 + |all_children|); replace_text / re_sub change position p only (List.set), an unchanged re_sub is a no-op; a successful "
               "append_to_family inserts exactly one line at the computed index, for a child-level append to a target with children that index "
               "is family_endpoint + 1 (directly after the last descendant); every refused operation leaves the whole state unchanged; options "
               "never change and with auto_commit off only commit replaces the tree. With auto_commit on and ignore_blank_lines the texts are "
